@@ -817,7 +817,7 @@ class LexerTokenStream(TokenStream):
                     text = text.replace("\n\n", "\n")
                     # strip prefixing whitespace
                     text = _multicomment_re.sub("\n*", text)
-                    comment_lines = text.splitlines()
+                    comment_lines.extend(text.splitlines())
 
         comment_str = "\n".join(comment_lines)
         if comment_str:
